@@ -24,6 +24,11 @@ fn case_json(stream: &[u8], limit: usize, cuts: &[usize], what: &str) -> J {
 
 /// Judges one stream; returns true when a violation was reported.
 pub fn judge(ctx: &mut Ctx, stream: &[u8], limit: usize, cuts: &[usize], what: &str, sig_prefix: &str) -> bool {
+    judge_gap(ctx, stream, limit, cuts, Gap::None, what, sig_prefix)
+}
+
+/// `gap`: kind of empty read (EAGAIN / EINTR) inserted between the segments.
+pub fn judge_gap(ctx: &mut Ctx, stream: &[u8], limit: usize, cuts: &[usize], gap: Gap, what: &str, sig_prefix: &str) -> bool {
     if !ctx.begin() {
         return false;
     }
@@ -33,7 +38,10 @@ pub fn judge(ctx: &mut Ctx, stream: &[u8], limit: usize, cuts: &[usize], what: &
         ctx.rep.count("dont_care_streams_skipped");
         return false;
     }
-    let o = run_stream(Some(limit), stream, cuts, Gap::None, false);
+    let o = run_stream(Some(limit), stream, cuts, gap, false);
+    if gap != Gap::None && !cuts.is_empty() {
+        ctx.rep.count("segmented_runs_with_empty_reads_between");
+    }
     if !m.events.is_empty() {
         ctx.rep.distinct(Fp::new().bytes(stream).u(limit as u64).0);
     }
@@ -193,7 +201,8 @@ pub fn run(ctx: &mut Ctx) {
             }
             let cuts = gen::random_cuts(rng, s.len(), 4);
             if !cuts.is_empty() {
-                judge(ctx, s, limit, &cuts, what, "C02");
+                let gap = *rng.pick(&[Gap::None, Gap::WouldBlock, Gap::Interrupted]);
+                judge_gap(ctx, s, limit, &cuts, gap, what, "C02");
             }
         });
     }
